@@ -595,7 +595,8 @@ fn fix_select_exec_n(s: &mut SelectSpec, o: ExecOpts, allow_with: bool, arity: O
     if let Some(w) = &mut s.with {
         w.search = None;
         w.cycle = None;
-        w.recursive = false;
+        // RECURSIVE stays as generated; the first CTE then really refers to itself (below)
+        let recursive = w.recursive;
         let mut seen = vec![];
         w.ctes.retain(|c| {
             let n = c.name % 2;
@@ -624,6 +625,22 @@ fn fix_select_exec_n(s: &mut SelectSpec, o: ExecOpts, allow_with: bool, arity: O
                 }
             }
             if o.portable {
+                c.materialized = None;
+            }
+            if recursive && ctes.is_empty() {
+                // a terminating recursion: every base row yields one more row with id + 100
+                //   <base> UNION ALL SELECT c.id + 100, c.p, c.q, c.r, c.s FROM c WHERE c.id < 100
+                let me = 6 + c.name % 2;
+                let mut arm = SelectSpec::default();
+                arm.items = (0u8..5)
+                    .map(|k| Item { e: if k == 0 { E::Bin(Box::new(E::QCol(me, 0)), Op::Add, Box::new(E::Int(100))) } else { E::QCol(me, k) }, alias: None, win: None })
+                    .collect();
+                arm.from = vec![FromSpec::Cte(c.name % 2, None)];
+                arm.wheres = vec![E::Bin(Box::new(E::QCol(me, 0)), Op::Lt, Box::new(E::Int(100)))];
+                c.query.unions = vec![(Un::UnionAll, arm)];
+                // the column list of a recursive CTE: SQLite takes the names from the first select; MySQL wants them spelled out
+                c.cols = vec![0, 1, 2, 3, 4];
+                c.derive = false;
                 c.materialized = None;
             }
             ctes.push(c.name % 2);
